@@ -8,8 +8,7 @@ import (
 	"net/http"
 	"net/http/httptest"
 	"net/url"
-	"reflect"
-	"strings"
+		"strings"
 	"testing"
 
 	"github.com/ipfs/boxo/gateway"
@@ -282,6 +281,51 @@ func genRem(t *rapid.T) string {
 
 var queries = []string{"", "", "", "a=b", "filename=x.txt&download=true", "q=a%20b", "q=a+b", "k=%3F%23%26", "x=1&x=2", "empty=", "flag", "u=%E6%97%A5", "format=car"}
 
+// Raw query strings as clients really send them. The hostname handler has no business interpreting the
+// query, so the generator is not limited to what Go's url.Values.Encode would produce: keys in any
+// order, repeated keys, keys without '=', empty keys / empty parameters, %20 next to '+', upper- and
+// lower-case percent escapes, escaped reserved characters, sub-delims and the characters browsers send
+// unescaped in a query (RFC 3986 query = pchar / "/" / "?", WHATWG query percent-encode set), a
+// literal ';', and malformed percent escapes (sent as-is by browsers and curl, accepted by net/http).
+// ("uri" is never a key: ?uri= is the registerProtocolHandler redirect, a different feature of the same handler)
+var qKeys = []string{"format", "dag-scope", "filename", "download", "entity-bytes", "car-dups", "z", "a", "m", "b", "x", "X", "k%20ey", "k+ey", "%E6%97%A5", "arr[]"}
+var qVals = []string{"car", "raw", "true", "1", "2", "entity", "0:*", "x.txt", "a%20b", "a+b", "a%20b+c", "%E6%97%A5", "%e6%97%a5", "%3F%23%26", "%2Fipfs%2Fx", "/ipfs/x", "ipfs://bafkqaaa/x?y", "a=b", "a;b", ";", "100%", "%zz", "%", "~._-", "!$'()*,", "a|b", "[1]", "{x}", "a:b@c", "%7E", "%2B", "%3D%26"}
+
+func genQuery(t *rapid.T) string {
+	switch rapid.IntRange(0, 9).Draw(t, "qclass") {
+	case 0, 1, 2:
+		return ""
+	case 3, 4:
+		return rapid.SampledFrom(queries).Draw(t, "query")
+	}
+	n := rapid.SampledFrom([]int{1, 1, 2, 2, 2, 3, 3, 4, 5}).Draw(t, "qparams")
+	var parts []string
+	for i := 0; i < n; i++ {
+		k := rapid.SampledFrom(qKeys).Draw(t, "qkey")
+		if i > 0 && rapid.IntRange(0, 5).Draw(t, "qrepeat") == 0 {
+			k = strings.SplitN(parts[rapid.IntRange(0, i-1).Draw(t, "qrepeat_of")], "=", 2)[0] // repeated key
+		}
+		switch rapid.IntRange(0, 11).Draw(t, "qform") {
+		case 0, 1: // key without '='
+			parts = append(parts, k)
+		case 2: // key with empty value
+			parts = append(parts, k+"=")
+		case 3: // empty key / empty parameter
+			parts = append(parts, rapid.SampledFrom([]string{"", "=", "=v"}).Draw(t, "qempty"))
+		default:
+			parts = append(parts, k+"="+rapid.SampledFrom(qVals).Draw(t, "qval"))
+		}
+	}
+	return strings.Join(parts, "&")
+}
+
+// canonicalQuery: is the raw query exactly what Go's url.Values would serialise (sorted keys, '=' after
+// every key, '+' for space, upper-case escapes)? Only then is parse-and-re-encode the identity.
+func canonicalQuery(q string) bool {
+	v, err := url.ParseQuery(q)
+	return err == nil && v.Encode() == q
+}
+
 func gen(t *rapid.T) Case {
 	c := Case{}
 	switch rapid.IntRange(0, 3).Draw(t, "gwclass") {
@@ -351,7 +395,7 @@ func gen(t *rapid.T) Case {
 		}
 	}
 	c.Rem = genRem(t)
-	c.Query = rapid.SampledFrom(queries).Draw(t, "query")
+	c.Query = genQuery(t)
 	c.Fragment = rapid.SampledFrom([]string{"", "", "frag", "a/b", "x=y"}).Draw(t, "fragment")
 	c.XFProto = rapid.SampledFrom([]string{"", "", "", "https", "https", "http"}).Draw(t, "xfproto")
 	c.XFHost = rapid.SampledFrom([]string{"", "", "", "", "only", "both"}).Draw(t, "xfhost")
@@ -459,14 +503,11 @@ func identity(s string) (string, bool) {
 	return "", false
 }
 
-func sameQuery(a, b string) bool {
-	if a == b {
-		return true
-	}
-	qa, ea := url.ParseQuery(a)
-	qb, eb := url.ParseQuery(b)
-	return ea == nil && eb == nil && reflect.DeepEqual(qa, qb)
-}
+// sameQuery: "the query is preserved". The query is opaque to the hostname handler (its meaning belongs
+// to the handler behind it and to the client: parameter order, 'k' vs 'k=', '%20' vs '+' - a literal
+// plus under RFC 3986 - and parameters Go's form parser rejects are all observable there), so preserved
+// means the raw query string is carried over unchanged.
+func sameQuery(a, b string) bool { return a == b }
 
 func pathAllowed(paths []string, ns string) bool {
 	for _, p := range paths {
@@ -606,6 +647,9 @@ func run(c Case) kit.Result {
 			if escPath == "" {
 				escPath = "/"
 			}
+			if !sameQuery(u.RawQuery, query) {
+				return fail("redirect changed the query from %q to %q (Location %q)", query, u.RawQuery, loc)
+			}
 			query = u.RawQuery
 			if u.Fragment != "" {
 				fragment = u.Fragment // a fragment in Location overrides the one the client kept
@@ -727,6 +771,16 @@ func run(c Case) kit.Result {
 	if isID {
 		classes = append(classes, "id")
 	}
+	if c.Query != "" {
+		qc := "query:go-canonical"
+		if !canonicalQuery(c.Query) {
+			qc = "query:raw-noncanonical"
+		}
+		if redirects > 0 {
+			qc += "-redirected"
+		}
+		classes = append(classes, qc)
+	}
 	if c.RootKind == "dns" && names[wantName] {
 		classes = append(classes, "dnslink:known")
 		if wantName != c.Root {
@@ -747,7 +801,7 @@ func run(c Case) kit.Result {
 
 var spec = kit.Spec[Case]{
 	Prop: "C32", Name: "main",
-	Rule:  "gateway.NewHostnameHandler with a recording next handler and a mock backend holding 0-3 DNSLink names; public gateway (plain, with port, wildcard) x UseSubdomains x InlineDNSLink x NoDNSLink x Paths; request = path (/ipfs|/ipns + CIDv0/v1 in 8 bases and 6 codecs, peer IDs in legacy/CIDv1/dag-pb forms, DNS names incl. inlined labels), subdomain Host, or DNSLink Host (also listed in PublicGateways itself: exact, exact:port or wildcard key x Paths x NoDNSLink), Host with or without an explicit port, with remainder (percent-escapes, '?', '#', unicode), query, client-side fragment, X-Forwarded-Proto/Host; redirects are followed (<=4) by re-injecting Location; the path reaching next must have the same namespace and multihash / DNSLink name, remainder and query, the fragment must survive, every Location host label <= 63; non-trivial = at least one redirect was followed, or a DNSLink Host with a record was mapped to /ipns/<name>/...",
+	Rule:  "gateway.NewHostnameHandler with a recording next handler and a mock backend holding 0-3 DNSLink names; public gateway (plain, with port, wildcard) x UseSubdomains x InlineDNSLink x NoDNSLink x Paths; request = path (/ipfs|/ipns + CIDv0/v1 in 8 bases and 6 codecs, peer IDs in legacy/CIDv1/dag-pb forms, DNS names incl. inlined labels), subdomain Host, or DNSLink Host (also listed in PublicGateways itself: exact, exact:port or wildcard key x Paths x NoDNSLink), Host with or without an explicit port, with remainder (percent-escapes, '?', '#', unicode), raw query (0-5 parameters: unsorted and repeated keys, keys without '=', empty parameters, %20 and '+', upper/lower-case and malformed percent escapes, sub-delims, literal ';'), client-side fragment, X-Forwarded-Proto/Host; redirects are followed (<=4) by re-injecting Location; the path reaching next must have the same namespace and multihash / DNSLink name, remainder and byte-identical raw query (also in every Location), the fragment must survive, every Location host label <= 63; non-trivial = at least one redirect was followed, or a DNSLink Host with a record was mapped to /ipns/<name>/...",
 	Quick: 6000, Thorough: 50000,
 	Gen: gen, Run: run,
 }
